@@ -103,6 +103,17 @@ func runC15(c *ctx) {
 			return rt
 		}
 		var fs []*gFilter
+		var tcfg *gCfg
+		if r.chance(30) {
+			// a Thrift-proxy filter in front: for this (non-gRPC) call its matching route takes precedence, and its cluster
+			// selection can fail like any other (no clusters, zero total weight)
+			tr := mkRoute()
+			tr.Kind, tr.Prefix = "thrift", ""
+			tr.Method = []string{"m1", "", "other"}[r.intn(3)]
+			tcfg = &gCfg{HasThrift: true, Thrift: []*gRoute{tr}}
+			fs = append(fs, &gFilter{Thrift: true, Inline: tcfg})
+			c.count("thrift-filter", 1)
+		}
 		f := &gFilter{RcName: "rc-a"}
 		switch r.intn(4) {
 		case 0:
@@ -174,7 +185,7 @@ func runC15(c *ctx) {
 				}
 			}
 			addCand(pretag)
-			for _, rt := range allGRoutes(f.Inline, namedCfg) {
+			for _, rt := range allGRoutes(tcfg, f.Inline, namedCfg) {
 				for _, cl := range rt.Clusters {
 					addCand(cl[0].(string))
 					addCand(cl[0].(string) + "|" + method)
@@ -401,6 +412,7 @@ func allGRoutes(cfgs ...*gCfg) []*gRoute {
 		for _, v := range c.HTTP {
 			out = append(out, v.Routes...)
 		}
+		out = append(out, c.Thrift...)
 	}
 	return out
 }
